@@ -1758,7 +1758,9 @@ class UnitQuaternion(Quaternion):
 
         :seealso: :func:`~spatialmath.base.quaternions.slerp`
         """
-        # TODO vectorize
+        if isinstance(s, (list, tuple, np.ndarray)):
+            # a vector of s values gives the corresponding sequence
+            return UnitQuaternion([self.interp(_s, dest=dest, shortest=shortest) for _s in s])
 
         if dest is not None:
             # 2 quaternion form
